@@ -6,6 +6,7 @@
 #endif
 #define VF_BUILTIN_MEMCPY
 #include "cjson_tu.h"
+#include "ctype_model.h"
 #define OBJ (6 * PSP_N + 6)
 static unsigned char ref[OBJ];
 static size_t ref_encode(const unsigned char *s, size_t len)
